@@ -77,7 +77,7 @@ def proj(sv):
 def rnd_state(r, allow_abs=True):
     if allow_abs and r.random() < 0.2:
         return dict(ABS)
-    return {"v": r.choice("01"), "x": r.choice("pq")}
+    return {"v": r.choice("01"), "x": r.choice("ppqq-")}       # "-": no attribute x
 
 
 def gen_scenario(r, sid, legacy, long=False):
@@ -114,7 +114,7 @@ def run_scenario(scn):
     async def pre(hass):
         for e, s in scn["init"].items():
             if s != ABS:
-                hass.states.async_set("pyscript." + e, s["v"], {"x": s["x"]})
+                hass.states.async_set("pyscript." + e, s["v"], {"x": s["x"]} if s["x"] != "-" else {})
 
     async def body(w):
         w.take()
@@ -124,7 +124,7 @@ def run_scenario(scn):
                 if op["s"] == ABS:
                     w.hass.states.async_remove(ent)
                 else:
-                    w.hass.states.async_set(ent, op["s"]["v"], {"x": op["s"]["x"]})
+                    w.hass.states.async_set(ent, op["s"]["v"], {"x": op["s"]["x"]} if op["s"]["x"] != "-" else {})
             await w.settle()
             runs = []
             for (_, a, _) in w.take():
@@ -198,10 +198,11 @@ def selftest(ctx, cases):
     for c in cases:
         for bi, b in enumerate(c["bursts"]):
             if b["runs"] and len(bad) < 40:
-                c2 = copy.deepcopy(c)
-                c2["id"] = "corrupt-drop/" + c["id"]
-                c2["bursts"][bi]["runs"] = c2["bursts"][bi]["runs"][1:]
-                bad.append(c2)
+                if len(b["ops"]) == 1:          # settled: the run is required (no burst ambiguity)
+                    c2 = copy.deepcopy(c)
+                    c2["id"] = "corrupt-drop/" + c["id"]
+                    c2["bursts"][bi]["runs"] = c2["bursts"][bi]["runs"][1:]
+                    bad.append(c2)
                 c3 = copy.deepcopy(c)
                 c3["id"] = "corrupt-kw/" + c["id"]
                 c3["bursts"][bi]["runs"][0]["kw"]["var_name"] = "pyscript.zzz"
